@@ -1,5 +1,6 @@
 import Bpmn.Props.C19
 import Bpmn.Props.C19Current
+import Bpmn.Props.C01Chain
 open Bpmn.Props.C19
 #print axioms C19_holds_partial
 #print axioms C19_general
@@ -19,3 +20,7 @@ open Bpmn.Props.C19
 #print axioms current_stored_dichotomy
 #print axioms current_C19
 #print axioms current_id_source_found
+#print axioms Bpmn.Props.C01Chain.chain_steps
+#print axioms Bpmn.Props.C01Chain.chain_start
+#print axioms Bpmn.Props.C01Chain.chain_conformance
+#print axioms Bpmn.Props.C01Chain.chain_matches_token_game
